@@ -1,5 +1,250 @@
-(* C08 -- placeholder while the model is brought up; replaced below. *)
-From NIC Require Import Policies.Model.
-Theorem C08_placeholder : True.
-Proof. exact I. Qed.
-Print Assumptions C08_placeholder.
+(* C08 -- Fail closed: an unusable policy or certificate never yields unprotected service.
+   Only statements, each closed by [exact], each followed by Print Assumptions.
+
+   Vocabulary (Policies/Model.v, Policies/Spec.v):
+     generate_policies refs pm d sc   the loop of generatePolicies on the references of one scope;
+                                      pm = the policy map createVirtualServerEx built (getPolicies),
+                                      d = state of Secrets / App Protect resources / TLS, sc = context
+                                      (spec | route | subroute), owner namespace, VS-wide OIDC slot
+     ref_unusable pm d sc r           r does not resolve in pm (Policy missing, invalid, of another
+                                      class: dropped by getPolicies) or resolves to a policy one of whose
+                                      dependencies is missing / invalid / wrongly typed, or that is not
+                                      allowed in this context
+     shadowed pm ns pre r             an earlier reference of the same list resolves to a policy of the
+                                      same kind
+   FULL STATEMENT of the first clause of the property (FALSE of the code, see C08_scope_fails_closed_refuted):
+     forall refs pm d sc r, In r refs -> ref_unusable pm d sc r -> generate_policies refs pm d sc = ErrorReturn.
+   The code ignores (with a warning) the second and later jwt / basicAuth / ingressMTLS / egressMTLS /
+   oidc / waf policy of a scope BEFORE looking at its dependencies, so an unusable duplicate does not
+   fail the scope.  Proved instead: the statement for every reference that is not shadowed. *)
+From Coq Require Import List String Bool.
+From NIC Require Import Lex.Lexer Lex.Parser Policies.Model Policies.Spec Policies.Proofs Policies.ProofsCheck Policies.ProofsVS.
+Import ListNotations.
+Open Scope string_scope.
+Open Scope list_scope.
+
+(* For EVERY list of references (any length), every policy map, every dependency state, every
+   scope: an unusable reference that no earlier reference of its own kind shadows makes the
+   outcome the error return -- whatever valid or invalid policies stand before and after it. *)
+Theorem C08_scope_fails_closed_partial :
+  forall (pre : list polref) (r : polref) (post : list polref) (pm : policy_map) (d : deps) (sc : scope),
+    ref_unusable pm d sc r ->
+    ~ shadowed pm (sc_owner_ns sc) pre r ->
+    generate_policies (pre ++ r :: post) pm d sc = ErrorReturn.
+Proof. exact scope_fails_closed_partial. Qed.
+Print Assumptions C08_scope_fails_closed_partial.
+
+(* The unrestricted statement is false: second JWT policy with a missing Secret, after a usable one. *)
+Theorem C08_scope_fails_closed_refuted :
+  exists refs pm d sc r,
+    In r refs /\ ref_unusable pm d sc r /\ generate_policies refs pm d sc <> ErrorReturn.
+Proof. exact scope_fails_closed_refuted. Qed.
+Print Assumptions C08_scope_fails_closed_refuted.
+
+(* A reference that getPolicies dropped (missing / foreign class / invalid Policy) fails the scope
+   in every position; it cannot be shadowed. *)
+Theorem C08_unresolved_reference_fails :
+  forall pre r post pm d sc,
+    assoc (ref_key (sc_owner_ns sc) r) pm = None ->
+    generate_policies (pre ++ r :: post) pm d sc = ErrorReturn.
+Proof. exact unresolved_ref_fails. Qed.
+Print Assumptions C08_unresolved_reference_fails.
+
+(* getPolicies / createPolicyMap: a Policy that is missing, of another class or invalid never
+   resolves in the map built for a VirtualServer. *)
+Theorem C08_dropped_policy_unresolvable :
+  forall cls cluster v k,
+    (assoc k cluster = None \/
+     exists cp, assoc k cluster = Some cp /\ (class_ok cls cp = false \/ cp_valid cp = false)) ->
+    assoc k (vs_policy_map cls cluster v) = None.
+Proof. exact dropped_policy_unresolvable_vs. Qed.
+Print Assumptions C08_dropped_policy_unresolvable.
+
+(* From the cluster state: the decidable predicate the check evaluates on the inputs
+   (policy_unusable: missing | foreign class | invalid | dependency missing / invalid / wrong type |
+   wrong context) implies the error return, for the map of ANY VirtualServer. *)
+Theorem C08_scope_fails_closed_from_cluster :
+  forall cls cluster v d sc pre r post,
+    sc_oidc sc <> Some (ref_key (sc_owner_ns sc) r) ->
+    policy_unusable cls cluster d (sc_ctx sc) (sc_owner_ns sc) r = true ->
+    ~ shadowed (vs_policy_map cls cluster v) (sc_owner_ns sc) pre r ->
+    generate_policies (pre ++ r :: post) (vs_policy_map cls cluster v) d sc = ErrorReturn.
+Proof. exact scope_fails_closed_from_cluster_vs. Qed.
+Print Assumptions C08_scope_fails_closed_from_cluster.
+
+(* Every scope of a VirtualServer (spec, own route, subroute with its own references, subroute
+   inheriting the references of the delegating route) is decided by generate_policies on exactly
+   the references vs_scopes lists; so an unusable unshadowed reference gives that server / location
+   PoliciesErrorReturn. *)
+Theorem C08_every_scope_of_a_virtualserver :
+  forall v pm d id ctx own pre r post,
+    In (id, ctx, own, pre ++ r :: post) (vs_scopes v) ->
+    (forall slot, ref_unusable pm d (mkScope ctx own slot) r) ->
+    ~ shadowed pm own pre r ->
+    exists vw, In (id, vw) (vs_views v pm d) /\ lv_err vw = true.
+Proof. exact vs_scope_fails_closed. Qed.
+Print Assumptions C08_every_scope_of_a_virtualserver.
+
+(* The classification the check computes on the INPUTS of every case (Spec.scan_refs = true: the scope
+   has an unusable reference -- Policy missing / foreign class / invalid, Secret or App Protect
+   dependency missing / invalid / wrongly typed, wrong context -- that no earlier reference of its
+   kind shadows) implies the error return, for every scope of every VirtualServer, with the policy
+   map createVirtualServerEx builds for it. *)
+Theorem C08_check_classification_implies_error_return :
+  forall cls cluster v d id ctx own refs slot,
+    In (id, ctx, own, refs) (vs_scopes v) ->
+    (forall r, In r refs -> slot <> Some (ref_key own r)) ->
+    fst (scan_refs cls cluster d ctx own [] refs) = true ->
+    generate_policies refs (vs_policy_map cls cluster v) d (mkScope ctx own slot) = ErrorReturn.
+Proof. exact unshadowed_scan_implies_error_return. Qed.
+Print Assumptions C08_check_classification_implies_error_return.
+
+(* THE VirtualServer-level statement.  For every VirtualServer (any number of routes, attached
+   VirtualServerRoutes and subroutes, any policy lists) whose namespaces contain no slash (vs_wf), with
+   the policy map createVirtualServerEx builds from ANY cluster state: every scope -- spec, own route,
+   subroute with its own references, subroute inheriting the references of the delegating route --
+   that has an unusable reference not shadowed by an earlier reference of its kind gets
+   PoliciesErrorReturn.  The VirtualServer-wide OIDC slot needs no side condition: it is proved to
+   hold only keys of OIDC policies whose client Secret is usable. *)
+Theorem C08_virtualserver_fails_closed :
+  forall cls cluster v d id ctx own refs,
+    vs_wf v ->
+    In (id, ctx, own, refs) (vs_scopes v) ->
+    fst (scan_refs cls cluster d ctx own [] refs) = true ->
+    exists vw, In (id, vw) (vs_views v (vs_policy_map cls cluster v) d) /\ lv_err vw = true.
+Proof. exact vs_unusable_scope_renders_error. Qed.
+Print Assumptions C08_virtualserver_fails_closed.
+
+(* The inheritance rule: which references a subroute is judged on. *)
+Theorem C08_inherited_scope :
+  forall v x s,
+    In x (vs_vsrs v) -> In s (v_subs x) ->
+    In (sub_scope_of v x s) (vs_scopes v) /\
+    (s_pols s = [] ->
+       snd (sub_scope_of v x s) = inherited_refs (vs_ns v) (vs_routes v) (nskey (v_ns x) (v_name x)) [] /\
+       snd (fst (fst (sub_scope_of v x s))) = CRoute) /\
+    (s_pols s <> [] -> snd (sub_scope_of v x s) = s_pols s /\ snd (fst (fst (sub_scope_of v x s))) = CSubroute).
+Proof. exact inherited_scope. Qed.
+Print Assumptions C08_inherited_scope.
+
+(* An error-return outcome carries no policy additions (nothing of the discarded configuration
+   leaks into the location), only the error. *)
+Theorem C08_error_return_carries_nothing :
+  forall so,
+    lv_err (view_of ErrorReturn so) = true /\
+    let a := lv_acc (view_of ErrorReturn so) in
+    a_access a = false /\ a_rate a = false /\ a_jwt a = false /\ a_basic a = false /\ a_imtls a = false /\
+    a_emtls a = false /\ a_apikey a = false /\ a_waf a = false.
+Proof. exact error_view_carries_nothing. Qed.
+Print Assumptions C08_error_return_carries_nothing.
+
+(* Rendered level.  A block consisting of harmless directives, the template's PoliciesErrorReturn
+   site, and ANYTHING after it (auth directives, proxy_pass, ...) satisfies the predicate the check
+   evaluates on the real output.  That the real templates have this shape is what S checks on the
+   real bytes of every case; it is not proved here. *)
+Theorem C08_unusable_policy_closes_location :
+  forall pre_refs r post_refs pm d sc so (pre post : list directive) f http srv,
+    ref_unusable pm d sc r -> ~ shadowed pm (sc_owner_ns sc) pre_refs r ->
+    forallb harmless pre = true ->
+    let v := view_of (generate_policies (pre_refs ++ r :: post_refs) pm d sc) so in
+    error_page_targets (pre ++ render_error_return v ++ post) = [] ->
+    loc_closed (S f) http srv (pre ++ render_error_return v ++ post) = true.
+Proof. exact unusable_policy_closes_location. Qed.
+Print Assumptions C08_unusable_policy_closes_location.
+
+(* TLS: a named Secret that is missing, invalid or of the wrong type gives reject-handshake and
+   no certificate, for VirtualServer and Ingress hosts alike. *)
+Theorem C08_tls_rejects :
+  forall name ns d wildcard path_of st,
+    name <> "" -> secret_state d TyTLS (nskey ns name) = st ->
+    st = SMissing \/ st = SInvalid \/ st = SWrongType ->
+    vs_ssl_config (Some name) ns d wildcard path_of = Some (mkSsl true "") /\
+    ingress_ssl_config (Some name) ns d wildcard path_of = Some (mkSsl true "").
+Proof. exact tls_rejects_both. Qed.
+Print Assumptions C08_tls_rejects.
+
+(* ... and conversely a certificate is configured only for a usable TLS Secret of that name (or
+   the wildcard when no name is given): never another certificate. *)
+Theorem C08_certificate_only_when_usable :
+  forall tls ns d wildcard path_of s,
+    (vs_ssl_config tls ns d wildcard path_of = Some s \/ ingress_ssl_config tls ns d wildcard path_of = Some s) ->
+    ssl_reject s = false ->
+    exists name, tls = Some name /\
+      ((name = "" /\ wildcard = true /\ ssl_cert s = wildcard_pem) \/
+       (secret_state d TyTLS (nskey ns name) = SOk /\ ssl_cert s = path_of (nskey ns name))).
+Proof. exact certificate_only_when_usable. Qed.
+Print Assumptions C08_certificate_only_when_usable.
+
+(* What the states mean in terms of the cluster. *)
+Theorem C08_secret_state_meaning :
+  forall d ty key,
+    (secret_state d ty key = SMissing <->
+       (assoc key (d_secrets d) = None \/ exists s, assoc key (d_secrets d) = Some s /\ sec_type s = TyOther)) /\
+    (secret_state d ty key = SOk ->
+       exists s, assoc key (d_secrets d) = Some s /\ sec_type s = ty /\ sec_valid s = true).
+Proof. exact secret_state_meaning. Qed.
+Print Assumptions C08_secret_state_meaning.
+
+(* Ingress JWT / basic auth: with the annotation present the directive is configured in EVERY
+   state of the Secret (the state only adds a warning). *)
+Theorem C08_ingress_auth_kept :
+  forall expected name ns d file_of,
+    exists a, ingress_auth expected (Some name) ns d file_of = Some a /\
+              au_file a = file_of (nskey ns name) /\
+              (au_warn a = true <-> secret_state d expected (nskey ns name) <> SOk).
+Proof. exact ingress_auth_kept. Qed.
+Print Assumptions C08_ingress_auth_kept.
+
+(* ---------------------------------------------------------------- non-vacuity *)
+
+Definition ex_pm : policy_map :=
+  [("default/acl", mkPolicy KAccess "" "" false "" "" [] [] "" false);
+   ("default/basic", mkPolicy KBasic "htp" "" false "" "" [] [] "" false);
+   ("default/waf", mkPolicy KWaf "" "" false "ap" "" ["lc"] [] "" false)].
+Definition ex_deps_ok : deps :=
+  mkDeps [("default/htp", mkSecret TyHtpasswd true)] ["default/ap"] ["default/lc"] [] true.
+Definition ex_deps_bad : deps :=
+  mkDeps [("default/htp", mkSecret TyTLS true)] ["default/ap"] ["default/lc"] [] true.
+Definition ex_sc : scope := mkScope CSubroute "default" None.
+
+(* with usable dependencies the scope is served with all three policies *)
+Example C08_nonvacuous_applied :
+  exists a, generate_policies [("", "acl"); ("", "basic"); ("", "waf")] ex_pm ex_deps_ok ex_sc = Applied a /\
+            a_access a = true /\ a_basic a = true /\ a_waf a = true.
+Proof. eexists. vm_compute. repeat split. Qed.
+
+(* the hypotheses of the theorem are met by a wrongly typed Secret in the middle of the list *)
+Example C08_nonvacuous_unusable :
+  ref_unusable ex_pm ex_deps_bad ex_sc ("", "basic") /\
+  ~ shadowed ex_pm "default" [("", "acl")] ("", "basic") /\
+  generate_policies ([("", "acl")] ++ ("", "basic") :: [("", "waf")]) ex_pm ex_deps_bad ex_sc = ErrorReturn.
+Proof.
+  split; [vm_compute; reflexivity|]. split; [|vm_compute; reflexivity].
+  intros (r' & p' & p & I & A & B & K). destruct I as [I|[]]. subst r'.
+  vm_compute in A. vm_compute in B. inversion A; inversion B; subst. discriminate.
+Qed.
+
+Example C08_nonvacuous_tls :
+  vs_ssl_config (Some "tls") "default" (mkDeps [("default/tls", mkSecret TyCA true)] [] [] [] false) false (fun k => k)
+  = Some (mkSsl true "") /\
+  vs_ssl_config (Some "tls") "default" (mkDeps [("default/tls", mkSecret TyTLS true)] [] [] [] false) false (fun k => k)
+  = Some (mkSsl false "default/tls").
+Proof. split; vm_compute; reflexivity. Qed.
+
+(* a VirtualServer whose route /v delegates to default/vsr1 and carries a basicAuth policy with a
+   Secret of the wrong type: the subroute without policies inherits it and fails; the subroute with its
+   own (usable) policy and the plain route are served *)
+Definition ex_cluster : list (string * cpolicy) :=
+  [("default/acl", mkCPolicy (mkPolicy KAccess "" "" false "" "" [] [] "" false) "" true);
+   ("default/basic", mkCPolicy (mkPolicy KBasic "htp" "" false "" "" [] [] "" false) "nginx" true)].
+Definition ex_vs : vserver :=
+  mkVs "default" []
+       [mkRoute "/v" "default/vsr1" [("", "basic")]; mkRoute "/r" "" [("", "acl")]]
+       [mkVsr "default" "vsr1" [mkSub "/v/a" []; mkSub "/v/b" [("", "acl")]]].
+
+Example C08_nonvacuous_virtualserver :
+  map (fun x => (fst x, lv_err (snd x))) (vs_views ex_vs (vs_policy_map "nginx" ex_cluster ex_vs) ex_deps_bad)
+  = [("spec", false); ("route:/r", false); ("sub:default/vsr1:/v/a", true); ("sub:default/vsr1:/v/b", false)] /\
+  map (fun sc => fst (scan_refs "nginx" ex_cluster ex_deps_bad (snd (fst (fst sc))) (snd (fst sc)) [] (snd sc))) (vs_scopes ex_vs)
+  = [false; false; true; false].
+Proof. split; vm_compute; reflexivity. Qed.
